@@ -372,7 +372,12 @@ func (p *parser) primary() *Expr {
 				if v.k != "id" {
 					panic("quantifier variable expected")
 				}
-				vars = append(vars, v.s)
+				name := v.s
+				if nt := p.peek(); nt.k == "id" && nt.s != "in" {
+					p.next()
+					name += ":" + nt.s
+				}
+				vars = append(vars, name)
 				if !p.accept(",") {
 					break
 				}
@@ -416,6 +421,7 @@ type Contract struct {
 	RecvPtr  bool
 	FnName   string
 	Params   []string
+	PTypes   []string // parameter type texts (lemmas)
 	Results  []string // named results, if any
 	Pkg      string   // package path the contract file belongs to ("" for library specs)
 	Clauses  []*Clause
@@ -449,6 +455,7 @@ type SpecFn struct {
 type SpecAxiom struct {
 	Name string
 	E    *Expr
+	Pat  *Expr
 	Text string
 }
 
@@ -503,7 +510,7 @@ func (db *SpecDB) parseSpecText(file, pkg string, lines []string, lib bool) {
 		if j := strings.IndexAny(t, " \t("); j >= 0 {
 			first = t[:j]
 		}
-		isNew := first == "func" || first == "interface" || first == "type" || first == "spec" || first == "axiom" || first == "lemma" || clauseKW[first]
+		isNew := first == "func" || first == "interface" || first == "lemmafn" || first == "type" || first == "spec" || first == "axiom" || first == "lemma" || clauseKW[first]
 		if !isNew && len(items) > 0 {
 			items[len(items)-1].text += " " + t
 			continue
@@ -524,7 +531,7 @@ func (db *SpecDB) parseSpecText(file, pkg string, lines []string, lib bool) {
 			kw, rest = t[:j], strings.TrimSpace(t[j+1:])
 		}
 		switch kw {
-		case "func", "interface":
+		case "func", "interface", "lemmafn":
 			c, err := parseSig(kw, rest)
 			if err != nil {
 				errf(it.line, "%v", err)
@@ -547,6 +554,21 @@ func (db *SpecDB) parseSpecText(file, pkg string, lines []string, lib bool) {
 			}
 			db.Fns[f.Name] = f
 		case "axiom", "lemma":
+			var pat *Expr
+			if k := strings.Index(rest, "{"); k >= 0 && k < strings.Index(rest, ":") {
+				k2 := strings.Index(rest, "}")
+				if k2 < k {
+					errf(it.line, "unterminated {pattern}")
+					continue
+				}
+				pe, err := parseExpr(strings.TrimSpace(rest[k+1 : k2]))
+				if err != nil {
+					errf(it.line, "%v", err)
+					continue
+				}
+				pat = pe
+				rest = rest[:k] + rest[k2+1:]
+			}
 			j := strings.Index(rest, ":")
 			if j < 0 {
 				errf(it.line, "axiom needs name:")
@@ -557,7 +579,7 @@ func (db *SpecDB) parseSpecText(file, pkg string, lines []string, lib bool) {
 				errf(it.line, "%v", err)
 				continue
 			}
-			a := &SpecAxiom{Name: strings.TrimSpace(rest[:j]), E: e, Text: rest[j+1:]}
+			a := &SpecAxiom{Name: strings.TrimSpace(rest[:j]), E: e, Pat: pat, Text: rest[j+1:]}
 			if kw == "axiom" {
 				db.Axioms = append(db.Axioms, a)
 			} else {
@@ -826,6 +848,14 @@ func parseSig(kind, s string) (*Contract, error) {
 		return nil, fmt.Errorf("unbalanced parameter list in %q", s)
 	}
 	c.Params = paramNames(s[j+1 : e])
+	for _, p := range splitTop(s[j+1:e], ',') {
+		fs := strings.Fields(strings.TrimSpace(p))
+		if len(fs) >= 2 {
+			c.PTypes = append(c.PTypes, fs[1])
+		} else {
+			c.PTypes = append(c.PTypes, "")
+		}
+	}
 	rest := strings.TrimSpace(s[e+1:])
 	if strings.HasPrefix(rest, "(") {
 		k := matchParen(rest, 0)
